@@ -100,6 +100,7 @@ type C09Case struct {
 	Cut      [][2]int `json:"cut,omitempty"`       // links blocked before the searches
 	DropResp float64  `json:"drop_resp,omitempty"` // response loss during the searches
 	Remove   int      `json:"remove,omitempty"`    // 1: the crashed node is then removed from the membership, 2: removed first, then taken out of service
+	CutP     float64  `json:"cut_p,omitempty"`     // probability that a leg's answer stream breaks off after some of its items
 }
 
 func genC09(r *simrt.Rand, tier string) json.RawMessage {
@@ -117,8 +118,15 @@ func genC09(r *simrt.Rand, tier string) json.RawMessage {
 		q := []float32{float32(r.Range(-40, 40)) / 4, float32(r.Range(-40, 40)) / 4}
 		c.Searches = append(c.Searches, W3Op{K: "search", Node: r.Range(1, c.W3.Nodes), Q: q, N: []int{1, 2, 3, 5, 10, 50}[r.Intn(6)]})
 	}
-	if c.W3.Nodes > 1 && r.Bool(0.35) {
-		switch r.Intn(4) {
+	if c.W3.Nodes > 1 && r.Bool(0.45) {
+		switch r.Intn(5) {
+		case 4:
+			// the answer stream of a leg breaks off after some of its items (connection reset):
+			// whoever asks again must not keep what the broken attempt delivered
+			c.CutP = []float64{0.3, 0.6}[r.Intn(2)]
+			if c.Items < 6 {
+				c.Items = r.Range(6, 14)
+			}
 		case 3:
 			// the node leaves the membership as well: the catalogue keeps listing it as a replica
 			// (for good when it was the only one), yet nobody has an address for it any more
@@ -168,7 +176,11 @@ func execC09(raw json.RawMessage, wantLog bool) (out Outcome) {
 				allParts[p.Id] = true
 			}
 		}
-		faulty := len(c.Down) > 0 || len(c.Cut) > 0 || c.DropResp > 0
+		faulty := len(c.Down) > 0 || len(c.Cut) > 0 || c.DropResp > 0 || c.CutP > 0
+		if c.CutP > 0 {
+			s.cfg.Net.CutStream = c.CutP
+			s.faultsOn = true
+		}
 		removeNode := func(wait time.Duration) {
 			target := s.nodes[c.Down[0]-1]
 			for attempt := 0; attempt < 4; attempt++ {
@@ -392,9 +404,9 @@ func shrinkC09(raw json.RawMessage) []json.RawMessage {
 		n.W3.Cfg.YieldP = 0
 		emit(n)
 	}
-	if len(c.Down) > 0 || len(c.Cut) > 0 || c.DropResp > 0 {
+	if len(c.Down) > 0 || len(c.Cut) > 0 || c.DropResp > 0 || c.CutP > 0 {
 		n := c
-		n.Down, n.Cut, n.DropResp, n.Remove = nil, nil, 0, 0
+		n.Down, n.Cut, n.DropResp, n.Remove, n.CutP = nil, nil, 0, 0, 0
 		emit(n)
 	}
 	if c.Remove > 0 {
@@ -724,7 +736,7 @@ func genC11(r *simrt.Rand, tier string) json.RawMessage {
 			}
 		}
 	}
-	mode := r.Intn(6)
+	mode := r.Intn(8)
 	if mode == 5 && c.Nodes < 3 {
 		mode = 3
 	}
@@ -734,6 +746,32 @@ func genC11(r *simrt.Rand, tier string) json.RawMessage {
 		}
 	}
 	switch mode {
+	case 7:
+		// the dataset is deleted while writes are in flight: the partitions' raft groups are
+		// unloaded under the waiting proposers, who must not read that as "applied"
+		for i := range c.Ops {
+			c.Ops[i].Async = true
+			c.Ops[i].Ms = r.Range(0, 6)
+		}
+		k := r.Range(1, len(c.Ops))
+		ops := append([]W3Op{{K: "track-items"}}, c.Ops[:k]...)
+		ops = append(ops, W3Op{K: "delds", Node: r.Range(1, c.Nodes)})
+		c.Ops = append(ops, c.Ops[k:]...)
+		if r.Bool(0.5) {
+			c.Ops = append([]W3Op{{K: "pause-proposers"}}, c.Ops...)
+		}
+	case 6:
+		// impatient callers: every proposer is held between Propose and its wait while the
+		// entry is applied, and some callers' deadlines expire meanwhile - they leave with
+		// "deadline exceeded" although their outcome was (or is being) delivered; nobody
+		// else may ever receive it
+		for i := range c.Ops {
+			c.Ops[i].Async = false
+			if r.Bool(0.4) {
+				c.Ops[i].DlMs = r.Range(40, 280)
+			}
+		}
+		c.Ops = append([]W3Op{{K: "overlap-mode"}, {K: "pause-proposers"}}, c.Ops...)
 	case 4: // overlapping callers, no faults: outcomes must be linearizable and none may be lost
 		c.Ops = append([]W3Op{{K: "overlap-mode"}}, c.Ops...)
 		if r.Bool(0.5) {
@@ -817,6 +855,47 @@ func execC11(raw json.RawMessage, wantLog bool) (out Outcome) {
 			overlap = true
 		}
 	}
+	deleted := false
+	for _, op := range c.Ops {
+		if op.K == "delds" {
+			deleted = true
+		}
+	}
+	if deleted {
+		runScenario(&c, "C11", &out, wantLog, nil, func(r *W3Run) {
+			if len(out.Violations) > 0 {
+				return
+			}
+			r.waitAll(20 * time.Second)
+			r.s.runFor(2 * time.Second)
+			kindNo := map[string]int{"ins": 0, "upd": 1, "rem": 2, "bins": 0, "bupd": 1, "brem": 2}
+			for _, h := range r.hist {
+				kn, ok := kindNo[h.op.K]
+				if !ok || !h.done {
+					continue
+				}
+				for i, id := range h.op.Ids {
+					if h.perId[id] != "ok" {
+						continue
+					}
+					ver := 0
+					if kn != 2 && i < len(h.op.Vers) {
+						ver = h.op.Vers[i]
+					}
+					r.out.Stat("acknowledged_writes", 1)
+					if !r.s.appliedItems[fmt.Sprintf("%d/%x/%d", kn, idOf(id).Bytes(), ver)] {
+						r.viol("acknowledged-write-not-applied/dataset-deleted-meanwhile", "%s of id#%d (version %d) through n%d was acknowledged with success, but no replica ever applied an entry that carries it (the dataset was deleted while it was in flight)", h.op.K, id, ver, h.op.Node)
+						return
+					}
+					r.out.Stat("acknowledged_writes_found_among_the_applied_entries", 1)
+				}
+			}
+			r.checkNoDeath()
+		})
+		out.Stat("dataset_deleted_under_traffic_runs", 1)
+		out.Nontrivial = out.Stats["client_writes"] > 0
+		return
+	}
 	if !faulty && !overlap {
 		// fault-free (incl. paused proposers): exact outcomes, exact batch error maps
 		out = execRouting("C11", raw, wantLog)
@@ -831,6 +910,10 @@ func execC11(raw json.RawMessage, wantLog bool) (out Outcome) {
 			r.waitAll(20 * time.Second)
 			for _, h := range r.hist {
 				for i, id := range h.op.Ids {
+					if h.op.DlMs > 0 && h.done && h.perId[id] == "unknown" {
+						r.out.Stat("callers_that_left_on_their_own_deadline", 1)
+						continue // the caller's own deadline struck: legal, the write is indeterminate
+					}
 					if !h.done || h.perId[id] == "unknown" {
 						r.viol("fault-free-write-failed/overlapping-callers", "no fault is active, yet %s of id#%d through n%d did not get its outcome: %v", h.op.K, id, h.op.Node, h.err)
 						return
@@ -1539,7 +1622,7 @@ func init() {
 	}
 	mk("C09", "exploration",
 		"case = cluster of 1..4 servers, dataset with 1..8 partitions and 1..3 replicas, 1..14 items, 2..6 dataset searches from any node with k from 1 to beyond the total, yield probability 0..40% at the fan-out/fan-in channel operations, seeded select order; optionally a crashed node (which may also be removed from the membership, before or after it goes down, so that no address is known for a listed replica), a blocked link or 30% response loss during the searches; the simulator records every SearchPartitions leg; non-trivial = at least one search executed; distinct = hash of the event log",
-		[]string{"dataset_searches", "searches_checked_against_union", "searches_with_several_legs", "legs_checked_against_direct_search", "searches_failed_loudly", "fault_partition", "fault_crash", "fault_drop_response", "node_removed_from_membership"},
+		[]string{"dataset_searches", "searches_checked_against_union", "searches_with_several_legs", "legs_checked_against_direct_search", "searches_failed_loudly", "fault_partition", "fault_crash", "fault_drop_response", "node_removed_from_membership", "fault_stream_cut"},
 		genC09, execC09, shrinkC09, 1200, 40000)
 	mk("C10", "exploration",
 		"case = fault-free cluster of 1..4 servers, dataset with 1..8 partitions, 4..14 writes over 3..12 ids issued through random entry nodes (hosting or not hosting the owner) and both API paths (single, batch), optionally a restart of all nodes in the middle; every outcome must equal a sequential map, every id must live in exactly one partition; non-trivial = more than 2 outcomes compared; distinct = hash of the event log",
